@@ -241,6 +241,38 @@ def q_volume(t):
     return float(get_volume(t, accuracy=2))
 
 
+def q_traverse_enter(t):
+    seen = []
+
+    def enter(n, pre):
+        seen.append([int(n.id), -1 if pre is None else int(pre)])
+        return int(n.id)
+
+    t.traverse(enter=enter)
+    return sorted(seen)  # (node, value handed down by its parent = the parent's id): a set, the order among siblings is free
+
+
+def q_traverse_leave(t):
+    sizes = {}
+
+    def leave(n, children):
+        sizes[int(n.id)] = 1 + sum(children)
+        return sizes[int(n.id)]
+
+    total = t.traverse(leave=leave)
+    return [int(total), sorted(sizes.items())]
+
+
+def q_node_traverse(t):
+    out = []
+    for n in t:
+        got = []
+        n.traverse(enter=lambda m, pre, got=got: got.append(int(m.id)))
+        out.append(sorted(got))
+    return out
+
+
+Q_C04 = dict(traverse_enter=("Tree.traverse", q_traverse_enter), traverse_leave=("Tree.traverse", q_traverse_leave), node_traverse=("Tree.Node.traverse", q_node_traverse))
 Q_C08 = dict(tips=("Tree.get_tips", q_tips), furcations=("Tree.get_furcations", q_furcations), branches=("Tree.get_branches", q_branches), paths=("Tree.get_paths", q_paths),
              node_flags=("Tree.Node.is_tip", q_node_flags), node_branch=("Tree.Node.branch", q_node_branch))
 Q_C09 = dict(children=("Tree.Node.children", q_children), parent=("Tree.Node.parent", q_parent), rows=("Tree.Node.__getitem__", q_node_rows), segments=("Tree.get_segments", q_segments),
